@@ -126,6 +126,15 @@ func strEq(a, b value) *Term {
 			return Eq(sa.flt, sb.flt)
 		}
 	}
+	// two base-10 renderings are equal exactly when the integers are (same signedness)
+	if sa, ok := a.(*SymStr); ok && sa.dec != nil && sa.taint == "" {
+		if sb, ok := b.(*SymStr); ok && sb.dec != nil && sb.taint == "" && sa.dec.signed == sb.dec.signed {
+			if sa.dec.signed {
+				return Eq(SExt(sa.dec.x, 64), SExt(sb.dec.x, 64))
+			}
+			return Eq(ZExt(sa.dec.x, 64), ZExt(sb.dec.x, 64))
+		}
+	}
 	if strLen(a) != strLen(b) {
 		return termFalse
 	}
